@@ -10,6 +10,9 @@ CONSTANTS K,         \* number of declared parts
           Wide       \* FALSE: the hand-picked profiles; TRUE: the full product (simulation)
 
 Perms == {p \in [1..K -> 1..K] : \A i, j \in 1..K : (p[i] = p[j]) => i = j}
+\* listing orders explored exhaustively: all for K <= 3, half of them (the part numbered K listed
+\* first or last) beyond, to keep the thorough product replayable
+ListPerms == IF K <= 3 THEN Perms ELSE {p \in Perms : p[1] = K \/ p[K] = K}
 PosIn(p, x) == CHOOSE i \in 1..K : p[i] = x
 
 \* ------------------------------- profiles -------------------------------
@@ -26,14 +29,22 @@ PosIn(p, x) == CHOOSE i \in 1..K : p[i] = x
 \* extra  : EPUB: a manifest item that is not in the spine
 \* missing: 0, or the DECLARED POSITION whose part is absent from the archive (declared but
 \*          not readable: no page, not counted, nothing shown in its place)
+\* enc    : how the special piece of the part names is spelled in the reference (see PartsOrder:
+\*          names with a space, '+', "%20", a lone '%', e-acute, parentheses, '&'); OOXML too
+\* alias  : per declared part an undeclared decoy member whose name is what a WRONG reading of the
+\*          reference denotes: "decoded" = the name percent-decoded once more, "undecoded" = the
+\*          reference text taken literally, "query" = '+' read as a space (only where that name differs)
+\* paths "dot": references with a "./" segment
 \* decoy "conv": an undeclared member with the CONVENTIONAL name (xl/worksheets/sheet<k>.xml,
 \*          ppt/slides/slide<k>.xml) numbered by the missing position, in packages whose real
 \*          parts live elsewhere
 OProf(pa, tg, de, ex, inf) == [paths |-> pa, tgt |-> tg, decoy |-> de, extras |-> ex, infra |-> inf,
-                               enc |-> "none", opf |-> "root", ver |-> 0, extra |-> FALSE, missing |-> 0]
+                               enc |-> "none", opf |-> "root", ver |-> 0, extra |-> FALSE, missing |-> 0, alias |-> "none"]
 EProf(pa, en, op, ve, de, xt, ex, inf) == [paths |-> pa, tgt |-> "rel", decoy |-> de, extras |-> ex, infra |-> inf,
-                               enc |-> en, opf |-> op, ver |-> ve, extra |-> xt, missing |-> 0]
+                               enc |-> en, opf |-> op, ver |-> ve, extra |-> xt, missing |-> 0, alias |-> "none"]
 Miss(pr, m) == [pr EXCEPT !.missing = m]
+Enc(pr, e)  == [pr EXCEPT !.enc = e]
+Alias(pr, a) == [pr EXCEPT !.alias = a]
 
 OProfiles == { OProf("std", "rel", "none", TRUE, TRUE),      OProf("std", "abs", "last", FALSE, FALSE),
                OProf("nested", "rel", "first", FALSE, TRUE), OProf("renamed", "rel", "none", TRUE, FALSE),
@@ -41,7 +52,13 @@ OProfiles == { OProf("std", "rel", "none", TRUE, TRUE),      OProf("std", "abs",
                \* one declared part absent
                Miss(OProf("std", "rel", "none", TRUE, TRUE), 1),     Miss(OProf("std", "abs", "last", FALSE, FALSE), 2),
                Miss(OProf("std", "rel", "first", FALSE, TRUE), 3),   Miss(OProf("renamed", "rel", "conv", TRUE, FALSE), 2),
-               Miss(OProf("nested", "abs", "conv", FALSE, TRUE), 1), Miss(OProf("renamed", "abs", "none", FALSE, TRUE), 3) }
+               Miss(OProf("nested", "abs", "conv", FALSE, TRUE), 1), Miss(OProf("renamed", "abs", "none", FALSE, TRUE), 3),
+               \* part names that need care
+               Alias(Enc(OProf("std", "rel", "none", FALSE, TRUE), "sp20"), "decoded"),
+               Alias(Enc(OProf("renamed", "abs", "none", TRUE, FALSE), "eC3A9"), "decoded"),
+               Alias(Enc(OProf("nested", "rel", "last", FALSE, FALSE), "plusLit"), "query"),
+               Enc(OProf("std", "abs", "none", FALSE, TRUE), "paren"), Enc(OProf("dot", "rel", "first", TRUE, FALSE), "amp"),
+               Alias(Enc(OProf("dot", "abs", "none", FALSE, TRUE), "pct2520"), "decoded"), OProf("dot", "rel", "none", FALSE, FALSE) }
 EProfiles == { EProf("std", "none", "one", 3, "none", FALSE, TRUE, TRUE),
                EProf("std", "sp20", "root", 2, "last", TRUE, FALSE, FALSE),
                EProf("nested", "plusLit", "one", 3, "none", FALSE, FALSE, TRUE),
@@ -51,18 +68,34 @@ EProfiles == { EProf("std", "none", "one", 3, "none", FALSE, TRUE, TRUE),
                EProf("std", "plus2B", "root", 3, "first", FALSE, FALSE, FALSE),
                Miss(EProf("std", "none", "one", 3, "last", FALSE, TRUE, TRUE), 1),
                Miss(EProf("nested", "sp20", "two", 2, "none", TRUE, FALSE, FALSE), 2),
-               Miss(EProf("renamed", "plus2B", "one", 3, "first", FALSE, FALSE, TRUE), 3) }
-OWide == { o \in { Miss(OProf(pa, tg, de, ex, inf), m) : pa \in {"std", "nested", "renamed"}, tg \in {"rel", "abs"},
+               Miss(EProf("renamed", "plus2B", "one", 3, "first", FALSE, FALSE, TRUE), 3),
+               \* part names that need care
+               Alias(EProf("std", "pct2520", "one", 3, "none", FALSE, FALSE, TRUE), "decoded"),
+               EProf("nested", "pct2520", "two", 2, "last", TRUE, TRUE, FALSE),
+               Alias(EProf("renamed", "pct2520", "one", 2, "none", FALSE, FALSE, FALSE), "undecoded"),
+               Alias(EProf("std", "pct25z", "root", 3, "none", FALSE, TRUE, FALSE), "undecoded"),
+               Alias(EProf("dot", "eC3A9", "one", 2, "first", FALSE, FALSE, TRUE), "undecoded"),
+               EProf("nested", "eRaw", "two", 3, "none", TRUE, FALSE, FALSE),
+               EProf("dot", "paren", "root", 3, "last", FALSE, TRUE, TRUE),
+               EProf("renamed", "amp", "two", 2, "none", FALSE, TRUE, TRUE),
+               Alias(EProf("std", "sp20", "one", 2, "none", FALSE, FALSE, FALSE), "undecoded"),
+               Alias(EProf("nested", "plusLit", "root", 3, "none", FALSE, TRUE, TRUE), "query"),
+               Alias(EProf("dot", "plus2B", "two", 3, "none", TRUE, FALSE, FALSE), "undecoded") }
+\* (a parameter keeps TLC from evaluating the full product at startup of every run)
+OWide(dummy) == { o \in { Alias(Enc(Miss(OProf(pa, tg, de, ex, inf), m), en), al) :
+                                         pa \in {"std", "nested", "renamed", "dot"}, tg \in {"rel", "abs"},
                                          de \in {"none", "first", "last", "conv"}, ex \in BOOLEAN, inf \in BOOLEAN,
-                                         m \in 0..K } :
-             (o.decoy = "conv") => (o.missing > 0 /\ o.paths # "std") }
-EWide == { e \in { Miss(EProf(pa, en, op, ve, de, xt, ex, inf), m) :
-                     pa \in {"std", "nested", "renamed"}, en \in {"none", "sp20", "plusLit", "plus2B"},
+                                         m \in 0..K, en \in {"none", "sp20", "plusLit", "pct2520", "eC3A9", "paren", "amp"},
+                                         al \in {"none", "decoded", "query"} } :
+             (o.decoy = "conv") => (o.missing > 0 /\ o.paths \in {"nested", "renamed"}) }
+EWide(dummy) == { e \in { Alias(Miss(EProf(pa, en, op, ve, de, xt, ex, inf), m), al) :
+                     pa \in {"std", "nested", "renamed", "dot"}, al \in {"none", "decoded", "undecoded", "query"},
+                     en \in {"none", "sp20", "plusLit", "plus2B", "pct2520", "pct25z", "eC3A9", "eRaw", "paren", "amp"},
                      op \in {"root", "one", "two"}, ve \in {2, 3}, de \in {"none", "first", "last"},
                      xt \in BOOLEAN, ex \in BOOLEAN, inf \in BOOLEAN, m \in 0..K } :
              ~(e.paths = "renamed" /\ e.opf = "root") }     \* ../text/ needs a parent directory
-ProfilesOf(f) == IF f = "epub" THEN (IF Wide THEN EWide ELSE EProfiles)
-                 ELSE (IF Wide THEN OWide ELSE OProfiles)
+ProfilesOf(f) == IF f = "epub" THEN (IF Wide THEN EWide(0) ELSE EProfiles)
+                 ELSE (IF Wide THEN OWide(0) ELSE OProfiles)
 
 \* -------------------------- names and references --------------------------
 OpfDir(pr) == CASE pr.opf = "root" -> <<>> [] pr.opf = "one" -> <<"OEBPS">> [] pr.opf = "two" -> <<"OPS", "pkg">>
@@ -71,11 +104,11 @@ BaseOf(f, pr) == CASE f = "xlsx" -> <<"xl">> [] f = "pptx" -> <<"ppt">> [] f = "
 \* relative segments from the declaring document's directory to the parts
 RelSegs(f, pr) ==
     CASE f = "xlsx" -> (CASE pr.paths = "std" -> <<"worksheets">> [] pr.paths = "nested" -> <<"worksheets", "sub">>
-                          [] pr.paths = "renamed" -> <<"data">>)
+                          [] pr.paths = "renamed" -> <<"data">> [] pr.paths = "dot" -> <<".", "worksheets">>)
       [] f = "pptx" -> (CASE pr.paths = "std" -> <<"slides">> [] pr.paths = "nested" -> <<"slides", "deck">>
-                          [] pr.paths = "renamed" -> <<"pages">>)
+                          [] pr.paths = "renamed" -> <<"pages">> [] pr.paths = "dot" -> <<".", "slides">>)
       [] f = "epub" -> (CASE pr.paths = "std" -> <<>> [] pr.paths = "nested" -> <<"text", "part">>
-                          [] pr.paths = "renamed" -> <<"..", "text">>)
+                          [] pr.paths = "renamed" -> <<"..", "text">> [] pr.paths = "dot" -> <<".", "text">>)
 StemOf(f, pr) ==
     CASE f = "xlsx" -> (IF pr.paths = "renamed" THEN "tab" ELSE "sheet")
       [] f = "pptx" -> (IF pr.paths = "renamed" THEN "page" ELSE "slide")
@@ -88,7 +121,15 @@ HrefOf(f, pr, n) ==
      stem |-> StemOf(f, pr), enc |-> pr.enc, n |-> n, ext |-> ExtOf(f)]
 
 \* the member name is DEFINED as what the reference denotes under URL path rules
-NameOf(f, pr, n) == ResolveWith("path", BaseOf(f, pr), HrefOf(f, pr, n))
+NameOf(f, pr, n) == ResolveWith(StdMode(f), BaseOf(f, pr), HrefOf(f, pr, n))
+
+\* the name a wrong reading of the reference would look for
+AliasSp(f, pr) ==
+    LET real == DecodeWith(StdMode(f), pr.enc) IN
+    CASE pr.alias = "decoded"   -> ReDecode(real)
+      [] pr.alias = "undecoded" -> Literal(pr.enc)
+      [] pr.alias = "query"     -> (IF real = "plus" THEN "space" ELSE real)
+      [] OTHER -> real
 
 Part(f, pr, id, n, decl, rel, zip) ==
     [id |-> id, name |-> NameOf(f, pr, n), href |-> HrefOf(f, pr, n), decl |-> decl, rel |-> rel, zip |-> zip,
@@ -105,12 +146,15 @@ MkPkg(f, pr, d, r, z) ==
                  ELSE IF pr.decoy = "conv" THEN << Part(f, StdProf(pr), 90, pr.missing, 0, 0, K + 1) >>
                  ELSE IF pr.decoy = "first" THEN << Part(f, pr, 90, 0, 0, 0, 0) >>
                  ELSE << Part(f, pr, 90, K + 1, 0, 0, K + 1) >>
+        \* one alias decoy per real part (ids 71..), after everything else in the archive
+        alias == IF pr.alias = "none" \/ AliasSp(f, pr) = DecodeWith(StdMode(f), pr.enc) THEN <<>>
+                 ELSE [i \in 1..K |-> [Part(f, pr, 70 + i, i, 0, 0, K + 2 + i) EXCEPT !.name.sp = AliasSp(f, pr)]]
         extra == IF pr.extra THEN << Part(f, pr, 91, K + 2, 0, K + 1, K + 2) >> ELSE <<>>
     IN [fmt |-> f, base |-> BaseOf(f, pr), prof |-> pr, convdir |-> ConvDir(f, pr), convstem |-> ConvStem(f, pr),
-        parts |-> real \o decoy \o extra]
+        parts |-> real \o decoy \o extra \o alias]
 
 MCInit ==
-    /\ \E f \in Fmts : \E pr \in ProfilesOf(f) : \E d \in Perms, r \in Perms, z \in Perms :
+    /\ \E f \in Fmts : \E pr \in ProfilesOf(f) : \E d \in Perms, r \in ListPerms, z \in Perms :
           pkg = MkPkg(f, pr, d, r, z)
     /\ pages = <<>> /\ pos = 0
 
@@ -121,11 +165,26 @@ MCSpec == MCInit /\ [][Next]_vars
 NoPkg == [fmt |-> "none", base |-> <<>>, prof |-> OProf("std", "rel", "none", FALSE, FALSE), convdir |-> <<>>, convstem |-> "",
           parts |-> <<>>]
 SimInit == pkg = NoPkg /\ pages = <<>> /\ pos = 0
+\* every option is drawn separately (drawing from the full product would build it for every trace);
+\* a bound variable is evaluated once (a LET definition would be re-drawn at every use)
+R(S) == {RandomElement(S)}
+Draw(f, pr) == pkg' = MkPkg(f, pr, RandomElement(Perms), RandomElement(Perms), RandomElement(Perms))
 SimPick ==
     /\ pkg.fmt = "none"
-    \* a bound variable is evaluated once (a LET definition would be re-drawn at every use)
-    /\ \E f \in {RandomElement(Fmts)} : \E pr \in {RandomElement(ProfilesOf(f))} :
-          pkg' = MkPkg(f, pr, RandomElement(Perms), RandomElement(Perms), RandomElement(Perms))
+    /\ \E f \in R(Fmts) :
+          IF ~Wide THEN \E pr \in R(ProfilesOf(f)) : Draw(f, pr)
+          ELSE IF f = "epub" THEN
+            \E pa \in R({"std", "nested", "renamed", "dot"}), al \in R({"none", "decoded", "undecoded", "query"}),
+               en \in R({"none", "sp20", "plusLit", "plus2B", "pct2520", "pct25z", "eC3A9", "eRaw", "paren", "amp"}),
+               op \in R({"root", "one", "two"}), ve \in R({2, 3}), de \in R({"none", "first", "last"}),
+               xt \in R(BOOLEAN), ex \in R(BOOLEAN), inf \in R(BOOLEAN), m \in R(0..K) :
+               Draw(f, Alias(Miss(EProf(pa, en, IF pa = "renamed" /\ op = "root" THEN "one" ELSE op, ve, de, xt, ex, inf), m), al))
+          ELSE
+            \E pa \in R({"std", "nested", "renamed", "dot"}), tg \in R({"rel", "abs"}), de \in R({"none", "first", "last", "conv"}),
+               ex \in R(BOOLEAN), inf \in R(BOOLEAN), m \in R(0..K),
+               en \in R({"none", "sp20", "plusLit", "pct2520", "eC3A9", "paren", "amp"}), al \in R({"none", "decoded", "query"}) :
+               Draw(f, Alias(Enc(Miss(OProf(pa, tg, IF de = "conv" /\ ~(m > 0 /\ pa \in {"nested", "renamed"}) THEN "none" ELSE de,
+                                            ex, inf), m), en), al))
     /\ UNCHANGED <<pages, pos>>
 SimNext == SimPick \/ (pkg.fmt # "none" /\ Next)
 SimSpec == SimInit /\ [][SimNext]_vars
